@@ -20,6 +20,8 @@ ValidationFailure).  Three streams:
     the shipped checkers in force; "must be refused" recomputed on the wire.
  G. (c19_meta.py) the MetaInfo of the answers varies per packet (FreshnessPeriod / ContentType forms, MetaInfo element absent /
     empty / with an unknown element, FinalBlockId placement) x must_be_fresh x losses, over the real NDNApp.
+ H. (c19_big.py) large objects: 255 / 256 / 257 and 65535 / 65536 / 65537 segments (the segment number changes width inside
+    the object), over the fake application; yields / ending and the NAMES of the Interests (canonical segment component).
 """
 import asyncio
 import itertools
@@ -101,6 +103,21 @@ RULE = ('A: objects of N=0..12 segments x every discovery answer (segment k<N, u
         'segment delivered / nacked / refused after retry-1 losses.  Oracle unchanged (the specification does not look at ContentType / '
         'FreshnessPeriod: a Data that reached the application inside the lifetime of a matching pending Interest was delivered): Spec.expected, '
         'headline, retry discipline (timeout-without-exhaustion), validator asked once per packet, site segment_fetcher+NDNApp(MetaInfo shapes). '
+        'LARGE OBJECTS (H, c19_big.py): the number of segments crosses every width boundary of the segment number - objects of 255 / 256 / '
+        '257 segments (thorough: 254..258, 300) and of 65535 / 65536 / 65537 segments, FinalBlockId on the last segment (alone / on every '
+        'segment / on a sample of earlier ones), the producer publishes segment i under <object name>/<type 50, i as the SHORTEST of the '
+        '1/2/4/8-octet forms> and answers a follow-up Interest for exactly such a name only, fetched through the fake application of '
+        'streams A/B with the runaway limit lifted to the object size (about 1 s per 65537-segment fetch) - x discovery answered by '
+        'segment 0 / the last / a segment at a boundary (255, 256, 65535) x retry_times {1, 3} (big: {2, 3}; thorough 0, 1, 4) x losses: none / '
+        'retry-1 losses of every boundary segment (254..257, 65534..65536) and of the discovery Interest / a boundary segment exhausted '
+        '(thorough: nacked, refused, last segment exhausted) x prefix form x call style x must_be_fresh.  Hundreds of segments: the whole '
+        'stream-A judgement (model trace with fuel = size, Spec.expected, Spec.expected_asks, headline, discipline); tens of thousands '
+        '(the extracted specification counts segments in unary): the headline property stated in Python - every content once, in order, '
+        'Completed / the ending of the first exhausted key -, retry discipline, Interest parameters.  NAMES OF THE INTERESTS (every stream '
+        'that goes through judge_fetch): each follow-up Interest is <object name> + one segment component in canonical shortest form (own '
+        'TLV walk; classes segment-interest-name, segment-number-not-shortest-form); the canonical form is tied both ways at 0, 1, 127, 128, '
+        '252..258, 65533..65538 (harness seg() = Spec.seg_comp) and additionally 2^32-2..2^32+1, 2^63-1, 2^63, 2^64-2, 2^64-1 '
+        '(Component.from_segment = Model.comp_from_segment). '
         'non-trivial = at least one Interest answered with Data and at least two Interests sent; distinct by case hash')
 ASSUMPTIONS = ['one fetch awaits one coroutine at a time (sequential by construction); SEVERAL fetches over one application are '
                'interleaved by asyncio - streams D and E run them on the virtual-time loop and judge each fetch against the scenario it '
@@ -177,12 +194,14 @@ LOST, NACKED, INVALID, DELIVERED = 0, 1, 2, 3
 class FakeApp:
     """express_interest(name, validator=…, **kwargs) -> coroutine, like NDNApp; [answer] decides."""
 
-    def __init__(self, answer, trace, as_view, nack_reason=150):
+    def __init__(self, answer, trace, as_view, nack_reason=150, limit=3000):
+        self.limit = limit                 # events after which a fetch counts as runaway
         self.answer = answer
         self.trace = trace
         self.kwlog = []
         self.as_view = as_view
         self.counts = {}
+        self.params = {}
         self.nack_reason = nack_reason     # what the InterestNack of a nacked Interest carries
         self.caught = None                 # the exception the fetch ended with
 
@@ -191,14 +210,23 @@ class FakeApp:
         from ndn import types as T
         # the same keyword handling as NDNApp.express_interest: unknown keywords are ignored there too,
         # so go through the real InterestParam to read what would be sent
-        ip = InterestParam.from_dict(dict(kwargs))
+        try:
+            ck = tuple(sorted(kwargs.items()))
+            par = self.params.get(ck)
+        except TypeError:
+            ck = par = None
+        if par is None:
+            ip = InterestParam.from_dict(dict(kwargs))
+            par = (bool(ip.can_be_prefix), bool(ip.must_be_fresh), ip.lifetime)
+            if ck is not None:
+                self.params[ck] = par       # a pure function of the keywords: read once per distinct keyword set of a fetch
         self.kwlog.append((validator, app_param, need_raw_packet, sorted(kwargs)))
-        q = (nb(Name.normalize(name)), bool(ip.can_be_prefix), bool(ip.must_be_fresh), ip.lifetime)
-        key = repr(q)
+        q = (nb(Name.normalize(name)),) + par
+        key = (tuple(q[0]),) + par
         n = self.counts.get(key, 0)
         self.counts[key] = n + 1
-        if len(self.trace) > 3000:        # a mutated fetcher that never gives up must not hang the check
-            raise RuntimeError('runaway fetch: more than 3000 events')
+        if len(self.trace) > self.limit:   # a mutated fetcher that never gives up must not hang the check
+            raise RuntimeError(f'runaway fetch: more than {self.limit} events')
         r = self.answer(q, n)
         self.trace.append(['ask', q, r, n])
 
@@ -221,17 +249,17 @@ class FakeApp:
 NACK_REASONS = [150, 0, 50, 100, 0, 1, 255, 256, 65536, 1 << 32, (1 << 64) - 1]
 
 
-def run_impl(loop, answer, name_arg, kw, as_view=False, max_yield=10 ** 6, nack_reason=150):
+def run_impl(loop, answer, name_arg, kw, as_view=False, max_yield=10 ** 6, nack_reason=150, limit=3000):
     from ndn.app_support.segment_fetcher import segment_fetcher
     from ndn import types as T
     trace = []
-    app = FakeApp(answer, trace, as_view, nack_reason)
+    app = FakeApp(answer, trace, as_view, nack_reason, limit)
 
     async def main():
         try:
             async for c in segment_fetcher(app, name_arg, **kw):
                 trace.append(['yield', bytes(c)])
-                if len(trace) > 4000:
+                if len(trace) > limit + 1000:
                     return (9,)
             return (0,)
         except T.InterestTimeout:
@@ -362,6 +390,51 @@ def check_nack_reason(ctx, site, ending, got_reason, sent_reason, case, tag=''):
     if ending == (1, (1,)) and got_reason != sent_reason:
         ctx.violation(site, tag + 'nack-reason-changed',
                       f'the fetch ended with InterestNack(reason={got_reason!r}), the Nack received carried {sent_reason!r}', case)
+
+
+def seg_number(comp):
+    """Own TLV walk of one name component: the number of a segment component (type 50 in any type / length form, value 1..8
+    octets big-endian), None for anything else."""
+    def var(b, p):
+        if p >= len(b):
+            return None, p
+        x = b[p]
+        w = {253: 2, 254: 4, 255: 8}.get(x, 0)
+        if w == 0:
+            return x, p + 1
+        if p + 1 + w > len(b):
+            return None, p
+        return int.from_bytes(b[p + 1:p + 1 + w], 'big'), p + 1 + w
+    b = bytes(comp)
+    t, p = var(b, 0)
+    if t != 50:
+        return None
+    ln, p = var(b, p)
+    if ln is None or ln != len(b) - p or not 1 <= ln <= 8:
+        return None
+    return int.from_bytes(b[p:], 'big')
+
+
+def check_interest_names(ctx, s, asks, case, site, tag=''):
+    """Every follow-up Interest (CanBePrefix = false) names ONE segment of the object by the name a producer publishes it
+    under: the object's name (the received name minus its segment component) plus the segment component in canonical form -
+    type 50, the number as the SHORTEST of the 1 / 2 / 4 / 8 octet big-endian forms (seg(), cross-checked against
+    Spec.seg_comp at the width boundaries by stream H).  A segment asked for under any other spelling of its number matches
+    no published packet: the fetch then times out although nothing was lost."""
+    for t in asks:
+        q = t[1]
+        if q[1]:
+            continue
+        nm = q[0]
+        i = seg_number(nm[-1]) if nm else None
+        if i is None or nm[:-1] != s['base']:
+            ctx.violation(site, tag + 'segment-interest-name',
+                          f'follow-up Interest {[c.hex() for c in nm[-2:]]} is not <object name>/<segment component>', case)
+            return
+        if nm[-1] != seg(i):
+            ctx.violation(site, tag + 'segment-number-not-shortest-form',
+                          f'the Interest for segment {i} names it {nm[-1].hex()}; published (canonical) component is {seg(i).hex()}', case)
+            return
 
 
 def check_asks(ctx, M, cfg, es, asks, case, site):
@@ -524,40 +597,58 @@ def run_scenario(ctx, loop, s, retry, lifetime, mbf, how, stratum):
 
 
 def judge_fetch(ctx, s, retry, lifetime, mbf, trace, ending, case, stratum, fate=None, kwlog=None, validator=None,
-                got_reason=None, nack_reason=None, key=None, site='segment_fetcher', tag=''):
+                got_reason=None, nack_reason=None, key=None, site='segment_fetcher', tag='', fuel=None, with_model=True):
     """ONE fetch against the model and the specification: [trace] is what this fetch did (its Interests with the answers
     the scenario [s] gives them, and its yields, in order), [ending] how it ended.  Used for the sequential streams and,
-    per fetch, for the concurrent ones (there [s] is the scenario as THIS fetch met it)."""
+    per fetch, for the concurrent ones (there [s] is the scenario as THIS fetch met it).  [fuel]: the model spends one
+    unit per segment (default FUEL; objects of hundreds of segments pass their own).  [with_model=False] (objects of tens of
+    thousands of segments, stream H: the extracted model indexes segments by unary numbers): the model / Spec.expected calls
+    are left out and the expected (yields, ending) is the headline property's, which must then be applicable."""
     M = ctx.call
     if fate is None:
         fate = scenario_answer(s)[1]
     cfg = [retry, lifetime, int(mbf)]
-    es = enc_scn(s)
-    # the Python producer is the specification's producer
-    for t in trace:
-        if t[0] == 'ask':
-            mo = M([4, es, enc_req(t[1]), t[3]])
-            if norm(mo) != norm(enc_resp(t[2])):
-                ctx.disagree('harness.producer', 'Python producer differs from Spec.oracle_of', case, mo, enc_resp(t[2]))
-    # correspondence: model trace
-    m = M([2, cfg, FUEL, es])
-    mev, mend = norm(m[0]), dec_ending(m[1])
-    iev = impl_events(trace)
-    if mev != iev or mend != ending:
-        ctx.disagree(site, 'trace / ending differ', case, [mev, mend], [iev, ending])
-    # direct oracle 1: the extracted specification
-    exp = M([3, retry, es])
-    eys, eend = norm(exp[0]), dec_ending(exp[1])
     ys = [t[1] for t in trace if t[0] == 'yield']
+    h = headline(s, retry, fate)
+    if with_model:
+        es = enc_scn(s)
+        # the Python producer is the specification's producer
+        # (objects of hundreds of segments: the first / last Interests, every Interest not answered with Data, every
+        # re-expressed one, the segments 250..260 and every 16th - each such call ships the whole object to the model)
+        nask = sum(1 for t in trace if t[0] == 'ask')
+        j = -1
+        for t in trace:
+            if t[0] == 'ask':
+                j += 1
+                if nask > 100 and not (j < 4 or j >= nask - 4 or t[2][0] != 'data' or t[3] > 0 or j % 16 == 0 or 250 <= j <= 260):
+                    continue
+                mo = M([4, es, enc_req(t[1]), t[3]])
+                if norm(mo) != norm(enc_resp(t[2])):
+                    ctx.disagree('harness.producer', 'Python producer differs from Spec.oracle_of', case, mo, enc_resp(t[2]))
+        # correspondence: model trace
+        m = M([2, cfg, FUEL if fuel is None else fuel, es])
+        mev, mend = norm(m[0]), dec_ending(m[1])
+        iev = impl_events(trace)
+        if mev != iev or mend != ending:
+            ctx.disagree(site, 'trace / ending differ', case, [mev, mend], [iev, ending])
+        # direct oracle 1: the extracted specification
+        exp = M([3, retry, es])
+        eys, eend = norm(exp[0]), dec_ending(exp[1])
+    else:
+        if h is None:
+            raise ValueError('judge_fetch(with_model=False) needs a scenario inside the headline property')
+        eys, eend = h
     if ys != eys:
-        missing = [c for c in eys if c not in ys]
+        have = set(ys)
+        missing = [c for c in eys if c not in have]
         dup = len(ys) != len(set(ys))
         cls = 'segment-missing' if missing else ('segment-duplicated' if dup else ('segments-out-of-order' if sorted(ys) == sorted(eys) else 'extra-content'))
-        ctx.violation(site, tag + cls, f'yielded {len(ys)} contents {[y.hex() for y in ys][:6]}, specification demands {[y.hex() for y in eys][:6]}', case)
+        first = next((j for j, (a, b) in enumerate(zip(ys, eys)) if a != b), min(len(ys), len(eys)))
+        ctx.violation(site, tag + cls, f'yielded {len(ys)} contents {[y.hex() for y in ys][:6]}, specification demands {len(eys)}: {[y.hex() for y in eys][:6]}'
+                      + (f' (first difference at position {first})' if first >= 6 else ''), case)
     elif ending != eend:
         ctx.violation(site, tag + f'ending:{eend}->{ending}', f'fetch ended with {ending}, specification demands {eend}', case)
     # direct oracle 2: the headline property stated in Python
-    h = headline(s, retry, fate)
     if h is not None:
         ctx.stat('headline_applicable')
         if (ys, ending) != (h[0], h[1]):
@@ -574,7 +665,9 @@ def judge_fetch(ctx, s, retry, lifetime, mbf, trace, ending, case, stratum, fate
     for v in (kwlog or []):
         if v[0] is not validator or v[1] is not None or v[2]:
             ctx.violation(site + '.express', tag + 'validator-not-passed', 'express_interest called without the caller\'s validator', case)
-    check_asks(ctx, M, cfg, es, asks, case, site + '.express')
+    if with_model:
+        check_asks(ctx, M, cfg, es, asks, case, site + '.express')
+    check_interest_names(ctx, s, asks, case, site + '.express', tag)
     if asks and (asks[0][1][0] != s['prefix'] or not asks[0][1][1]):
         ctx.violation(site + '.express', tag + 'discovery-interest', 'first Interest is not the CanBePrefix Interest for the given name', case)
     nd = sum(1 for t in asks if t[1][1])
@@ -724,6 +817,9 @@ def run(ctx):
     try:
         stream_a(ctx, loop)
         stream_b(ctx, loop)
+        # objects whose segment count crosses the width boundaries of the segment number (255/256/257, 65535/65536/65537)
+        from harness.props import c19_big
+        c19_big.stream_h(ctx, loop)
     except Runaway:
         ctx.notes.append('stopped early: the fetcher under test does not terminate on lost Interests')
         return
@@ -753,6 +849,9 @@ def replay(ctx, data):
     if isinstance(case, dict) and str(case.get('stream', '')).startswith('concurrent'):
         from harness.props import c19_conc
         c19_conc.replay(ctx, case)
+    elif isinstance(case, dict) and str(case.get('stream', '')).startswith('large objects'):
+        from harness.props import c19_big
+        c19_big.replay(ctx, case)
     elif isinstance(case, dict) and case.get('stream') == 'real NDNApp, signed segments':
         from harness.props import c19_sig
         c19_sig.replay(ctx, case)
